@@ -46,6 +46,11 @@ impl LinkNameMatcher {
 
 impl Matcher for LinkNameMatcher {
     fn matches(&self, file_info: &WalkEntry, _: &mut MatcherIO) -> bool {
+        // A link that the follow mode (-L, -follow, -H for starting points) resolves is
+        // not a symbolic link as far as the tests are concerned; only broken links remain.
+        if file_info.follow() && !file_info.file_type().is_symlink() {
+            return false;
+        }
         if let Some(target) = read_link_target(file_info) {
             self.pattern.matches(&target.to_string_lossy())
         } else {
